@@ -12,6 +12,10 @@ MEMCHK_RE = re.compile(r"dereference failure|array bounds|pointer relation|point
                        r"precondition")
 
 
+NATIVE_SUPPORT = ["src/str/safe_str_constraint.c", "src/mem/safe_mem_constraint.c", "src/ignore_handler_s.c",
+                  "src/str/strnlen_s.c", "src/mem/mem_primitives_lib.c"]
+
+
 class Job:
     def __init__(self, jid, prop, harness, repo_files, defines=(), variant="slack", models=("libc_models.c",),
                  unwind_rules=(), unwind_default=None, cbmc_flags=(), timeout=120, mem_gb=8,
@@ -181,7 +185,12 @@ class Job:
         wd = os.path.join(core.scratch(), "replay", re.sub(r"\W", "_", name))
         os.makedirs(wd, exist_ok=True)
         open(os.path.join(wd, "vh_inputs.h"), "w").write(core.inputs_header(inputs))
-        srcs = [os.path.join(HARNESS, self.harness)] + [os.path.join(core.REPO, f) for f in self.repo_files] + self.extra_sources
+        native_files = list(self.repo_files)
+        included = open(os.path.join(HARNESS, self.harness)).read()
+        for f in NATIVE_SUPPORT:  # the native link needs every callee, also those CBMC drops as unreachable
+            if f not in native_files and ('#include "%s"' % f.split("src/", 1)[1]) not in included:
+                native_files.append(f)
+        srcs = [os.path.join(HARNESS, self.harness)] + [os.path.join(core.REPO, f) for f in native_files] + self.extra_sources
         extra_inc = sorted({os.path.dirname(os.path.join(core.REPO, f)) for f in self.repo_files})
         exe = os.path.join(wd, "replay")
         defs = [d for d in self.all_defines() if not d.startswith("-DVH_EXCLUDE") and not d.startswith("-DVH_ONLY")]
